@@ -218,7 +218,7 @@ def cases(tier):
     if tier == "thorough":
         cs.append(dict(name="engine.de-dither.n4", fn=h_engine, params=dict(engine="de-dither", n=4), weight=30, **R))
         for e in ("sea", "ga"):
-            cs.append(dict(name=f"engine.{e}.n3", fn=h_engine, params=dict(engine=e, n=3), weight=40, **R))
+            cs.append(dict(name=f"engine.{e}.n3", fn=h_engine, params=dict(engine=e, n=3), weight=40, optional=True, **dict(R, budget_s=2400)))
     cs.append(dict(name="wrap.cma", fn=h_library_wrap, params=dict(which="cma"), **R))
     cs.append(dict(name="wrap.local", fn=h_library_wrap, params=dict(which="local"), **R))
     from .tstep import tree_cases
